@@ -180,7 +180,105 @@ theorem chain_laws (ord : Member → Member) (ho : OrdOK ord) (k : Key) (hk : k 
   · rw [laws.2.2.2.2.1]
   · rw [laws.2.2.2.2.2]
 
+/-! ### runs of dominants and subdominants: only the net rotation counts -/
+
+theorem dominants_rotate (n : Nat) : ∀ (p : Pos), p.2 < 12 →
+    (List.replicate n KConv.dominant).foldl absStep p = (p.1, (p.2 + n) % 12) := by
+  induction n with
+  | zero => intro p hp; simp [Nat.mod_eq_of_lt hp]
+  | succ n ih =>
+    intro p hp
+    rw [List.replicate_succ, List.foldl_cons]
+    have h1 : (absStep p .dominant).2 < 12 := by simp only [absStep]; omega
+    rw [ih _ h1]
+    simp only [absStep]
+    congr 1
+    omega
+
+theorem subdominants_rotate (n : Nat) : ∀ (p : Pos), p.2 < 12 →
+    (List.replicate n KConv.subdominant).foldl absStep p = (p.1, (p.2 + 11 * n) % 12) := by
+  induction n with
+  | zero => intro p hp; simp [Nat.mod_eq_of_lt hp]
+  | succ n ih =>
+    intro p hp
+    rw [List.replicate_succ, List.foldl_cons]
+    have h1 : (absStep p .subdominant).2 < 12 := by simp only [absStep]; omega
+    rw [ih _ h1]
+    simp only [absStep]
+    congr 1
+    omega
+
+theorem positions_lt : ∀ p ∈ positions, p.2 < 12 := by decide
+
+theorem foldl_mem_positions (l : List KConv) (h : ∀ x ∈ l, x ∈ moves) : ∀ r ∈ positions, l.foldl absStep r ∈ positions := by
+  induction l with
+  | nil => intro r hr; exact hr
+  | cons y ys ih => intro r hr; exact ih (fun z hz => h z (by simp [hz])) _ (absStep_mem r hr y (h y (by simp)))
+
+/-- the slot position of a supported key is unique -/
+theorem pos_unique (k : Key) (p q : Pos) (hp : p ∈ positions) (hq : q ∈ positions) (hkp : k ∈ slot p) (hkq : k ∈ slot q) : p = q := by
+  have a := ((rings_aligned.2.2.1 p hp).2 k hkp)
+  have b := ((rings_aligned.2.2.1 q hq).2 k hkq)
+  have h1 : p.1 = q.1 := by rw [← a.1, ← b.1]
+  have h2 : p.2 = q.2 := by
+    have := a.2.2; rw [b.2.2] at this; exact (Option.some.inj this).symm
+  exact Prod.ext h1 h2
+
+/-- **only the net rotation of a run counts**: anywhere inside a command, `a` dominants followed by `b`
+subdominants may be replaced by `(a + 11·b) mod 12` dominants — for every `a` and `b`, however many turns of the
+circle the run makes in either direction (a run of thirteen subdominants is one subdominant, not nothing).  The
+command that remains must not be empty: an empty command answers with the one spelling it was given, a command
+that cancels out with every spelling of that key. -/
+theorem net_rotation (ord : Member → Member) (ho : OrdOK ord) (k : Key) (hk : k ∈ requiredKeys) (a b : Nat)
+    (pre post : List KConv) (hne : pre ++ List.replicate ((a + 11 * b) % 12) KConv.dominant ++ post ≠ []) (hpre : ∀ x ∈ pre, x ∈ moves) (hpost : ∀ x ∈ post, x ∈ moves) :
+    chainConvert C ord k (pre ++ (List.replicate a .dominant ++ List.replicate b .subdominant) ++ post) =
+    chainConvert C ord k (pre ++ List.replicate ((a + 11 * b) % 12) .dominant ++ post) := by
+  have hrep : ∀ (n : Nat) (y : KConv), y ∈ moves → ∀ x ∈ List.replicate n y, x ∈ moves := by
+    intro n y hy x hx; rw [(List.mem_replicate.mp hx).2]; exact hy
+  have hd : KConv.dominant ∈ moves := by decide
+  have hs : KConv.subdominant ∈ moves := by decide
+  have hc1 : ∀ x ∈ pre ++ (List.replicate a .dominant ++ List.replicate b .subdominant) ++ post, x ∈ moves := by
+    intro x hx
+    simp only [List.mem_append] at hx
+    rcases hx with (h | h | h) | h
+    · exact hpre x h
+    · exact hrep a _ hd x h
+    · exact hrep b _ hs x h
+    · exact hpost x h
+  have hc2 : ∀ x ∈ pre ++ List.replicate ((a + 11 * b) % 12) .dominant ++ post, x ∈ moves := by
+    intro x hx
+    simp only [List.mem_append] at hx
+    rcases hx with (h | h) | h
+    · exact hpre x h
+    · exact hrep _ _ hd x h
+    · exact hpost x h
+  have hne1 : pre ++ (List.replicate a KConv.dominant ++ List.replicate b KConv.subdominant) ++ post ≠ [] := by
+    intro h
+    simp only [List.append_eq_nil_iff, List.replicate_eq_nil_iff] at h
+    obtain ⟨⟨h1, h2, h3⟩, h4⟩ := h
+    apply hne
+    simp [h1, h2, h3, h4]
+  obtain ⟨p, hp, hkp, e₁⟩ := chain_is_composition ord ho k hk _ hne1 hc1
+  obtain ⟨q, hq, hkq, e₂⟩ := chain_is_composition ord ho k hk _ hne hc2
+  have hpq := pos_unique k p q hp hq hkp hkq
+  subst hpq
+  rw [e₁, e₂]
+  congr 2
+  simp only [List.foldl_append]
+  have hr := foldl_mem_positions pre hpre p hp
+  have hlt := positions_lt _ hr
+  generalize pre.foldl absStep p = r at hr hlt
+  rw [dominants_rotate a r hlt, subdominants_rotate b _ (by simp only; omega), dominants_rotate _ r hlt]
+  congr 2
+  simp only
+  omega
+
 /-! non-vacuity -/
+example : chainConvert C id ⟨.C, false, .natural⟩ (List.replicate 13 .subdominant) = some [⟨.F, false, .natural⟩] := by decide
+/-- why `net_rotation` asks for a non-empty remainder: a command that cancels out names both spellings of B/Cb, the
+empty command only the one it was given -/
+example : (chainConvert C id ⟨.C, false, .flat⟩ [.dominant, .subdominant]).map List.length = some 2 ∧
+    (chainConvert C id ⟨.C, false, .flat⟩ []).map List.length = some 1 := by decide
 example : OrdOK id := fun _ h => ⟨h, fun _ hk => hk⟩
 example : OrdOK List.reverse := fun _ h => ⟨by simpa using h, fun _ hk => by simpa using hk⟩
 example : chainConvert C id ⟨.E, false, .natural⟩ [.dominant, .parallel, .relative, .subdominant] =
